@@ -145,7 +145,7 @@ Proof. exact ident_codec_roundtrip. Qed.
 Print Assumptions c15_ident_codec_roundtrip.
 
 (* semver::VersionReq (Deserialize = from_str, Serialize = Display; Model/VersionReq.v follows semver 1.0.27's parse.rs and
-   display.rs; pre-release / build metadata not modelled): Display then from_str is the identity on every value from_str can
+   display.rs, pre-release identifiers included, build metadata checked and dropped): Display then from_str is the identity on every value from_str can
    return, and from_str returns only such values *)
 Theorem c15_versionreq_codec_roundtrip : forall l, vreq_wf l = true -> vreq_parse (vreq_print l) = Some l.
 Proof. exact vreq_parse_print. Qed.
@@ -164,7 +164,10 @@ Example c15_ex_versionreq :
   vreq_normalise [32;62;61;32;49;46;48;32;44;60;50]%N (* " >= 1.0 ,<2" *) = Some [62;61;49;46;48;44;32;60;50]%N (* ">=1.0, <2" *)
   /\ vreq_normalise [49;46;120]%N (* "1.x" *) = Some [49;46;42]%N (* "1.*" *)
   /\ vreq_normalise [48;49]%N (* "01" *) = None
-  /\ vreq_normal [94;48;46;49;51]%N (* "^0.13" *) = true.
+  /\ vreq_normal [94;48;46;49;51]%N (* "^0.13" *) = true
+  /\ vreq_normalise [49;46;50;46;51;45;114;99;46;49;43;98;46;48;48;53]%N (* "1.2.3-rc.1+b.005" *)
+     = Some [94;49;46;50;46;51;45;114;99;46;49]%N (* "^1.2.3-rc.1" *)
+  /\ vreq_normalise [49;46;50;46;51;45;48;49]%N (* "1.2.3-01" *) = None.
 Proof. repeat split; vm_compute; reflexivity. Qed.
 
 (* ---- staged = direct, by composition.
